@@ -33,7 +33,7 @@ func encLine(data []byte) string {
 			r = fmt.Sprintf("vse\t%x:%d:%d:%d:%d:%d:%d:%s:%d\t-\t%s\t%s", x.Type(), x.DataReferenceIndex, x.Width, x.Height, x.Horizresolution,
 				x.Vertresolution, x.FrameCount, hexOrDash([]byte(x.CompressorName)), x.Size(), encBoxes(x.Children), encBoth(x))
 		default:
-			r = "-"
+			r = pfxEncLine(b)
 		}
 	}) != "" {
 		return "-"
